@@ -688,15 +688,20 @@ package fpgo
 // StreamSetDef.Intersection (non-empty operand): the keys of both; under a key the operand maps to a non-empty stream, a fresh
 // stream whose items all occur in the receiver's stream and in the operand's (nil counts as empty); under the other common keys
 // the receiver's stream object (shared).  Nothing that existed is written.
+//@ define SS_ORDERED(res, x) = forall(j, 0, len(*SS(res)[x]), 0 <= gk[x][j] && gk[x][j] < len(*SS(streamSetSelf)[x]) && (*SS(res)[x])[j] == (*SS(streamSetSelf)[x])[gk[x][j]]) && forall(j, 0, len(*SS(res)[x]), forall(l, 0, j, gk[x][l] < gk[x][j]))
 //@ func (StreamSetDef).Intersection
 //@   prop C04,C05
+//@   ghost gk (Array Val (Array Int Int))
 //@   requires streamSetSelf != nil
+//@   ensures order-follows-the-receiver: input != nil && len(SS(input)) > 0 ==> forallv(x, has(SS(r0), x) && SUBTRACTS(x) && SS(streamSetSelf)[x] != nil ==> SS_ORDERED(r0, x))
 //@   ensures empty-operand: input == nil || len(SS(input)) == 0 ==> r0 != nil && fresh(r0) && len(SS(r0)) == 0
 //@   ensures fresh-result: input != nil && len(SS(input)) > 0 ==> r0 != nil && fresh(r0) && SS(r0) != nil && fresh(SS(r0))
 //@   ensures keys-of-both: input != nil && len(SS(input)) > 0 ==> forallv(x, has(SS(r0), x) == (has(SS(streamSetSelf), x) && has(SS(input), x)))
 //@   ensures intersected: input != nil && len(SS(input)) > 0 ==> forallv(x, has(SS(r0), x) && SUBTRACTS(x) ==> SS(r0)[x] != nil && fresh(SS(r0)[x]) && (SS(streamSetSelf)[x] == nil ==> len(*SS(r0)[x]) == 0) && (SS(streamSetSelf)[x] != nil ==> forall(j, 0, len(*SS(r0)[x]), CONTAINS(*SS(streamSetSelf)[x], (*SS(r0)[x])[j]) && CONTAINS(*SS(input)[x], (*SS(r0)[x])[j]))))
 //@   ensures others-shared: input != nil && len(SS(input)) > 0 ==> forallv(x, has(SS(r0), x) && !SUBTRACTS(x) ==> SS(r0)[x] == SS(streamSetSelf)[x])
 //@ func (StreamSetDef).Intersection loop 0
+//@   ghostset gk = store(gk, k, Intersection_g)
+//@   invariant order-follows-the-receiver: forallv(x, has(SS(result), x) && _visited(x) && SUBTRACTS(x) && SS(streamSetSelf)[x] != nil ==> SS_ORDERED(result, x))
 //@   invariant result: result != nil && fresh(result) && SS(result) != nil && fresh(SS(result)) && SS(result) == _m
 //@   invariant keys-of-both: forallv(x, has(SS(result), x) == (has(SS(streamSetSelf), x) && has(SS(input), x)))
 //@   invariant intersected: forallv(x, has(SS(result), x) && _visited(x) && SUBTRACTS(x) ==> SS(result)[x] != nil && fresh(SS(result)[x]) && (SS(streamSetSelf)[x] == nil ==> len(*SS(result)[x]) == 0) && (SS(streamSetSelf)[x] != nil ==> forall(j, 0, len(*SS(result)[x]), CONTAINS(*SS(streamSetSelf)[x], (*SS(result)[x])[j]) && CONTAINS(*SS(input)[x], (*SS(result)[x])[j]))))
